@@ -364,6 +364,25 @@ def run_lru(prep, st, sim, info, cancel_at):
         info["problems"].append(("C18.cache_holds_partial_entry", ("lru_cache",), {"info": tuple(ci), "completed": ok_keys}))
     if ci.hits + ci.misses != len(done) + (1 if info["leaving"] is not None else 0):
         info["problems"].append(("C18.cache_statistics_inconsistent", ("lru_cache",), {"info": tuple(ci), "calls": len(done)}))
+    # the history is sequential, so the contents are known exactly: the C10 model, in which a call that did not
+    # complete (cancelled, like one that raised under functools.lru_cache) changes nothing - in particular it evicts nothing
+    from collections import OrderedDict
+    model = OrderedDict()
+
+    def model_call(key):
+        if key in model:
+            model.move_to_end(key)
+            return 0
+        model[key] = True
+        if prep.maxsize is not None and len(model) > prep.maxsize:
+            model.popitem(last=False)
+        return 1
+
+    for key, _v in done:
+        model_call(key)
+    if ci.currsize != len(model):
+        info["problems"].append(("C18.cache_contents_changed_by_cancelled_call", ("lru_cache", "currsize"),
+                                 {"info": tuple(ci), "completed_calls": [k for k, _ in done], "expected_currsize": len(model)}))
     # follow-up: the cancelled key is computed afresh and cached
     post = []
 
@@ -386,6 +405,11 @@ def run_lru(prep, st, sim, info, cancel_at):
             if ninv == 0 and v not in values_ok:
                 info["problems"].append(("C18.cache_serves_value_of_cancelled_call", ("lru_cache",), {"post": repr(post)}))
                 break
+        expected_invocations = [model_call(key) for key in (0, 1, 2, 2)]
+        if [p[2] for p in post] != expected_invocations:
+            info["problems"].append(("C18.cache_contents_changed_by_cancelled_call", ("lru_cache", "follow_up"),
+                                     {"post": repr(post), "expected_invocations": expected_invocations,
+                                      "completed_calls": [k for k, _ in done]}))
         if post[3][2] != 0 or post[3][1] != post[2][1]:
             info["problems"].append(("C18.cache_unusable_after_cancel", ("lru_cache", "not_cached"), {"post": repr(post)}))
 
